@@ -143,6 +143,12 @@ class BlockStream(Stream):
                     vals = [round(1.0 + rng.randint(0, 80) / 64.0, 6) for _ in range(n)]
                     out.append({"block": name, "param": p, "vals": vals,
                                 "in_solver": rng.random() < 0.4})
+                if p == "wl":
+                    # a fine sweep: consecutive values a few parts per million apart (and one exact repeat)
+                    v0 = round(1.0 + rng.randint(0, 80) / 64.0, 6)
+                    fine = [v0, v0 + 2e-6, v0 + 3e-6, v0 + 3e-6, v0 + 1e-3]
+                    out.append({"block": name, "param": p, "vals": fine[:2] if name.startswith("FPRGaussian") else fine,
+                                "in_solver": rng.random() < 0.4})
         return out
 
     def _obj(self, d):
